@@ -31,6 +31,12 @@ def run(chk, repo):
     chk.doc("R17.2", "busy handling")
     chk.doc("R17.3", "record strides")
     chk.doc("R17.4", "mode table and PDO entries")
+    chk.doc("R17.5", "what is read from one terminal is kept with that "
+                     "terminal")
+    per_instance_rule(chk, repo, "R17.5", [T, "ebpfcat.ebpfcat.EBPFTerminal"],
+                      "layouts decoded for one terminal are handed to "
+                      "another of the same kind but a different revision "
+                      "or mapping")
     read_one(chk, repo)
     walk(chk, repo)
     busy(chk, repo)
@@ -118,11 +124,41 @@ def walk(chk, repo):
 
 def busy(chk, repo):
     n = 0
+    tci = repo.cls(T)
     for meth in ("_eeprom_read_one", "eeprom_write_one"):
         sym = T + "." + meth
         f = repo.func(sym)
         cfg = CFG(f, raises="await")
         rd = ReachingDefs(cfg)
+        # a command is written only after the status register was seen
+        # idle in this call: directly, or in a helper awaited on the way
+        def polls(n_):
+            if n_.expr is None:
+                return False
+            if find("self.read(1282, $*a)", n_.expr):
+                return True
+            for c_ in ast.walk(n_.expr):
+                if isinstance(c_, ast.Call) and isinstance(
+                        c_.func, ast.Attribute) and unparse(
+                            c_.func.value) == "self":
+                    _, h_ = repo.lookup(tci, c_.func.attr)
+                    if isinstance(h_, FUNC) and find(
+                            "self.read(1282, $*a)", h_):
+                        return True
+            return False
+        cmds = [n_ for n_ in cfg.nodes if n_.expr is not None and find(
+            "self.write(1282, $*a)", n_.expr)]
+        need(cmds, f"{sym}: no command write to 0x502")
+        pn = [n_ for n_ in cfg.nodes if polls(n_)]
+        ok_ = bool(pn) and cfg.must_pass(
+            cfg.entry, lambda n_: n_ in pn, targets=[cmds[0]])
+        chk.ob("R17.2", sym, "the first command is written only after the "
+               "interface was polled in this call", ok_, cmds[0].stmt,
+               "a command written while the interface is still busy (an "
+               "earlier access cancelled after its command write, the "
+               "terminal loading its EEPROM) is ignored, and the data of "
+               "the previous address is returned" if not ok_ else
+               "status register 0x502 read on every path to the command")
         loops = [w for w in walk_no_nested(f) if isinstance(w, ast.While)
                  and "32768" in unparse(w.test)]
         for w in loops:
@@ -319,12 +355,57 @@ def pdos(chk, repo):
            "shifts every later variable to a wrong offset" if not ok else
            "bitpos += bits lies on every path round the loop, gaps "
            "included", path)
+    # the whole consumer, by abstract execution on entry lists (padding
+    # entries, single bits, whole-byte entries of every size, misaligned
+    # ones): the table it builds and the bit count it returns
+    tci = repo.cls(T)
+    cases = [
+        [(0x6000, 1, 1), (0x6000, 2, 1), (0, 0, 6), (0x6010, 1, 16)],
+        [(0x7000, 1, 8), (0, 0, 8), (0x7000, 2, 32), (0x7010, 1, 64)],
+        [(0, 0, 16), (0x6000, 0x11, 16), (0x6000, 1, 1), (0, 0, 7),
+         (0x6020, 1, 8)],
+        [(0x6000, 1, 1), (0x6000, 2, 8)],           # misaligned byte
+        [(0x6000, 1, 12)],                          # not whole bytes
+        [],
+    ]
+    bad_ = []
+    for entries in cases:
+        me_ = Obj(tci, {"pdos": {}})
+        want, bp, err = {}, 0, False
+        for i_, s_, b_ in entries:
+            if i_ != 0:
+                if b_ < 8:
+                    want[(i_, s_)] = ("SM", bp // 8, bp % 8)
+                elif b_ % 8 or bp % 8:
+                    err = True
+                    break
+                else:
+                    want[(i_, s_)] = ("SM", bp // 8, {8: "B", 16: "H",
+                                                       32: "I", 64: "Q"}[b_])
+            bp += b_
+        try:
+            got = Evaluator(repo, f._module, tci).call(
+                ("function", tci, f, {"self": me_}), [list(entries), "SM"])
+            if err:
+                bad_.append(f"{entries}: accepted, expected RuntimeError")
+            elif got != bp or me_.fields["pdos"] != want:
+                bad_.append(f"{entries}: returns {got}, table "
+                            f"{me_.fields['pdos']}")
+        except Raised as e:
+            if not err:
+                bad_.append(f"{entries}: raises {e.what[:30]}")
+        except Unknown as e:
+            raise AnalysisError(f"{sym}: cannot be evaluated: {e}")
+    chk.ob("R17.4", sym, "entries map to (sync manager, byte, bit) resp. "
+           "(sync manager, byte, struct letter of their size); padding "
+           "advances the position; misaligned whole-byte entries are "
+           "refused", not bad_, f, "; ".join(bad_[:2]) or f"{len(cases)} "
+           f"entry lists evaluated (a stated family, DESIGN.md 4.31)")
     ev = Evaluator(repo, f._module)
     sub_ = [a for a in walk_no_nested(f) if isinstance(a, ast.Assign)
             and match(f"self.pdos[{idx}, {sub}]", a.targets[0]) is not None]
-    chk.floor("R17.4", "PDO table stores", len(sub_), 2)
     fails = []
-    for a in sub_:
+    for a in (sub_ if len(sub_) >= 2 else []):
         facts = path_facts(a)
         small = any(t and match(f"{bits} < 8", e) is not None
                     for e, t in facts)
